@@ -54,8 +54,21 @@ void xfree(void *ptr)
   free(ptr);
 }
 
+#ifdef LIBSCIENTIFIC_VERIF
+size_t verif_nproc_override = 0;
+void (*verif_rng_yield)(int kind) = NULL;
+void (*verif_nipals_tick)(int site) = NULL;
+#endif
+
 void GetNProcessor(size_t *nprocs_online, size_t *nprocs_max)
 {
+  #ifdef LIBSCIENTIFIC_VERIF
+  if(verif_nproc_override > 0){
+    if(nprocs_online != NULL) (*nprocs_online) = verif_nproc_override;
+    if(nprocs_max != NULL) (*nprocs_max) = verif_nproc_override;
+    return;
+  }
+  #endif
   if(nprocs_online != NULL)
     (*nprocs_online) = -1;
   
